@@ -65,7 +65,8 @@ class Fold:
             if cn in ("tuple", "list") and len(e.args) == 1:
                 v = self.ev(e.args[0])
                 return tuple(v) if isinstance(v, (tuple, list)) else UNK
-            if cn == "dict" and len(e.args) == 1 and not e.keywords:
+            if cn in ("dict", "MappingProxyType") and len(e.args) == 1 \
+                    and not e.keywords:
                 v = self.ev(e.args[0])
                 return dict(v) if isinstance(v, dict) else UNK
             if cn == "len" and len(e.args) == 1:
@@ -187,6 +188,8 @@ class Fold:
                     return a is not b
                 if isinstance(op, ast.In):
                     return a in b
+                if isinstance(op, ast.NotIn):
+                    return a not in b
             except TypeError:
                 return UNK
             return UNK
@@ -232,10 +235,14 @@ class Groups:
         self.inv = {}
         for name in ("Tetrahedral", "SquarePlanar", "TrigonalBipyramidal",
                      "Octahedral", "PlanarBond", "AtropBond"):
-            ci = prog.cls(name)
-            self.G[name] = [tuple(r) for r in const(
-                ci.assigns["PERMUTATION_GROUP"])]
-            self.inv[name] = const(ci.assigns["inversion"])
+            def seen(attr):
+                for c in prog.mro(name):
+                    k = prog.classes.get(c)
+                    if k is not None and attr in k.assigns:
+                        return k.assigns[attr]
+                raise AnalysisError(f"{name}.{attr} not found")
+            self.G[name] = [tuple(r) for r in const(seen("PERMUTATION_GROUP"))]
+            self.inv[name] = const(seen("inversion"))
 
     def orbit(self, cls, atoms):
         return {perm_apply(g, atoms) for g in self.G[cls]}
@@ -336,7 +343,23 @@ def importer_tables(prog: Program) -> dict:
             base_env[name] = const(node)
         except Exception:
             pass
-    out: dict = {"_fi": fi}
+    # locals of the atom loop that name the centre: `c = id_atom_map[idx]`
+    stores: dict[str, int] = {}
+    for n in ast.walk(fi.node):
+        if isinstance(n, ast.Name) and isinstance(n.ctx, ast.Store):
+            stores[n.id] = stores.get(n.id, 0) + 1
+    for n in ast.walk(fi.node):
+        tgt = val = None
+        if isinstance(n, ast.Assign) and len(n.targets) == 1:
+            tgt, val = n.targets[0], n.value
+        elif isinstance(n, ast.AnnAssign) and n.value is not None:
+            tgt, val = n.target, n.value
+        if isinstance(tgt, ast.Name) and stores.get(tgt.id) == 1 and \
+                val is not None and norm(val) == "id_atom_map[atom_idx]":
+            base_env[tgt.id] = "c"
+    # the raw RDKit index of the centre is a symbol of its own
+    base_env.setdefault("atom_idx", "rdkit-index-of-c")
+    out: dict = {"_fi": fi, "_env": base_env}
 
     def neighbours(k):
         return tuple(f"n{i}" for i in range(k))
